@@ -27,7 +27,7 @@ func init() {
 			"(R-IFACEEQ) == / != on two interface values is reached only after every operand passed a comparability guard. " +
 			"(R-BOOLARITY) an and/or node is never built with fewer than two operands (the engine can decide them without calling the operator, so the arity error is enforced where the node is built; D14). NOT decided: numeric results (wrap-around and MinInt64/-1 are Go's int64 semantics for the built-in operators the rule checks are used), and the n-ary eq loop's value beyond the operands it compares.",
 		Run:       runC18,
-		Witnesses: append(append(append([]Witness{}, valueWalkWitnesses...), wave9Witnesses18...), c18Witnesses...),
+		Witnesses: append(append(append(append([]Witness{}, valueWalkWitnesses...), wave9Witnesses18...), betweenArrayWitnesses...), c18Witnesses...),
 	})
 }
 
@@ -700,9 +700,79 @@ func paramTermCtx(fn *ssa.Function, extra func(v ssa.Value) string) *termCtx {
 			if k, ok := paramIndex(v, params); ok {
 				return fmt.Sprintf("P%d", k)
 			}
+			// the operands collected into a local array first: var xs [N]T; for i, p := range params { xs[i] = p.(T) }
+			if k, ok := arrayCollectedParam(v, params); ok {
+				return fmt.Sprintf("P%d", k)
+			}
 		}
 		return ""
 	}}
+}
+
+// arrayCollectedParam: v loads element k (a constant) of a local array that a complete range loop over params fills with
+// xs[i] = params[i].(T), i the range index; the load lies behind the exit edge of that loop.
+func arrayCollectedParam(v ssa.Value, params ssa.Value) (int64, bool) {
+	addr, ok := isLoad(v)
+	if !ok {
+		return 0, false
+	}
+	ia, ok := addr.(*ssa.IndexAddr)
+	if !ok {
+		return 0, false
+	}
+	arr, ok := ia.X.(*ssa.Alloc)
+	if !ok {
+		return 0, false
+	}
+	if _, isArr := deref(arr.Type()).Underlying().(*types.Array); !isArr {
+		return 0, false
+	}
+	k, ok := constInt(ia.Index)
+	if !ok {
+		return 0, false
+	}
+	// exactly one store into the array, of the asserted element at the range index
+	var fill *ssa.Store
+	for _, ref := range referrers(arr) {
+		ea, ok := ref.(*ssa.IndexAddr)
+		if !ok {
+			continue
+		}
+		for _, ref2 := range referrers(ea) {
+			if st, ok := ref2.(*ssa.Store); ok && st.Addr == ssa.Value(ea) {
+				if fill != nil {
+					return 0, false
+				}
+				fill = st
+			}
+		}
+	}
+	if fill == nil {
+		return 0, false
+	}
+	ex, ok := fill.Val.(*ssa.Extract)
+	if !ok || ex.Index != 0 {
+		return 0, false
+	}
+	ta, ok := ex.Tuple.(*ssa.TypeAssert)
+	if !ok {
+		return 0, false
+	}
+	hdr, idx, ok := rangeElemOf(ta.X, params)
+	if !ok || fill.Addr.(*ssa.IndexAddr).Index != idx {
+		return 0, false
+	}
+	// every iteration stores, and the load is reached over the loop's exit edge only
+	for _, p := range hdr.Preds {
+		if hdr.Dominates(p) && !fill.Block().Dominates(p) {
+			return 0, false
+		}
+	}
+	ld, _ := v.(ssa.Instruction)
+	if ld == nil || !edgeDominates(hdr, 1, ld.Block()) {
+		return 0, false
+	}
+	return k, true
 }
 
 // valueReturns lists the returns that yield a value with a nil error.
